@@ -362,8 +362,7 @@ func (e *Exec) load(st *State, p Val) Val {
 	if a.Key == "G|net.IPv4zero" && len(a.Steps) == 0 && e.mode == ModeBV {
 		// standard library fact: net.IPv4zero is the (non-nil) unspecified address 0.0.0.0
 		e.eng.spec.need(e.sc, "ip_unspec")
-		arr, off, ln := e.sliceArr(st, out, tByte)
-		e.assume(st, fmt.Sprintf("(and (not (= (s-base %s) 0)) (ip_unspec %s %s %s))", out.S, arr, off, ln))
+		e.assume(st, fmt.Sprintf("(and (not (= (s-base %s) 0)) (ip_unspec %s))", out.S, out.S))
 	}
 	if needsWF(out.T, e.mode) {
 		if f := e.wfB(st, out, e.refBound(st, a.Key)); f != "true" {
@@ -446,7 +445,15 @@ func (e *Exec) wfB(st *State, v Val, bound string) string {
 			z := e.sc.idxLit(0)
 			return and(e.le(z, "(str-len "+v.S+")"), e.le("(str-len "+v.S+")", e.sc.idxLit(maxLen)), e.le(z, "(str-off "+v.S+")"), e.le("(str-off "+v.S+")", e.sc.idxLit(maxLen)))
 		}
-	case *types.Pointer, *types.Map, *types.Chan:
+	case *types.Map:
+		// maps of different (underlying) map types are different objects
+		if !e.sc.funs["maptype"] {
+			e.sc.funs["maptype"] = true
+			e.sc.emit("(declare-fun maptype (Int) Int)")
+		}
+		tag := e.sc.typeTag(types.Unalias(u))
+		return fmt.Sprintf("(and (<= 0 %s) (< %s %s) (=> (not (= %s 0)) (= (maptype %s) %d)))", v.S, v.S, bound, v.S, v.S, tag)
+	case *types.Pointer, *types.Chan:
 		return fmt.Sprintf("(and (<= 0 %s) (< %s %s))", v.S, v.S, bound)
 	case *types.Slice:
 		z := e.sc.idxLit(0)
